@@ -384,7 +384,7 @@ func runSendMode(w *bufio.Writer, seed uint64, n int, _ []string) {
 				g.observe()
 			}
 			g.v.Sent(g.now, g.v.PopPN(2), 2, 1, true)
-			g.now += 1000
+			g.now += 10_000 // slower than the pacing rate, so that the pacer is not what limits
 		}
 		g.observe()
 		fmt.Fprintf(w, "CASE 1 %s\n", u.App("SendModeCase", u.List(g.obs)))
